@@ -32,6 +32,11 @@ SHAPES = {
     "allocating-loop-bounded-live-set": "(define (loop i) (box (vector i i)) (loop (+ i 1)))\n(loop 0)",
     "string-building-loop": "(define (loop s) (loop (string-append \"a\" (substring s 0 (min 5 (string-length s))))))\n(loop \"\")",
     "loop-with-handler-installed-each-iteration": "(define (loop i) (with-handler (lambda (e) 0) (+ i 1)) (loop (+ i 1)))\n(loop 0)",
+    # the error raised by the request is caught by a handler that carries on: the request must keep stopping the program
+    "supervisor-restarts-the-job": "(define (job) (let loop ((i 0)) (loop (+ i 1))))\n(define (supervise n) (with-handler (lambda (e) (supervise (+ n 1))) (job)))\n(supervise 0)",
+    "handler-that-loops-after-catching": "(with-handler (lambda (e) (let loop ((i 0)) (loop (+ i 1)))) (let loop2 ((j 0)) (loop2 (+ j 1))))",
+    "after-thunk-that-loops": "(dynamic-wind (lambda () 0) (lambda () (let loop2 ((j 0)) (loop2 (+ j 1)))) (lambda () (let loop ((i 0)) (loop (+ i 1)))))",
+    "retry-in-a-loop": "(define (attempt) (with-handler (lambda (e) 'failed) (let loop ((i 0)) (loop (+ i 1)))))\n(define (forever n) (attempt) (forever (+ n 1)))\n(forever 0)",
     "closure-call-loop": "(define (make) (lambda (x) (+ x 1)))\n(define (loop f i) (loop (make) (f i)))\n(loop (make) 0)",
 }
 
